@@ -20,7 +20,7 @@ import traceback
 SPEC = json.load(sys.stdin)
 REPO = SPEC["repo"]
 VERIF = SPEC["verif"]
-sys.path[:0] = [REPO, os.path.join(VERIF, "stubs")]
+sys.path[:0] = [REPO, os.path.join(VERIF, "stubs"), os.path.join(VERIF, "sim", "c12", "extmods")]
 os.environ["PATH"] = os.path.join(VERIF, "stubs", "bin") + os.pathsep + os.environ.get("PATH", "")
 ENV = SPEC["env"]
 
@@ -217,6 +217,9 @@ def apply_params(cfg, params):
         if key == "substitutions":
             for tp, search, replace in value:
                 cfg.substitutions.substitution.append(C.GeneratorSubstitution(type=C.ObjectType(tp), search=search, replace=replace))
+        elif key == "extensions":
+            for tp, pattern, import_string, prepend in value:
+                cfg.extensions.extension.append(C.GeneratorExtension(type=C.ExtensionType(tp), class_name=pattern, import_string=import_string, prepend=prepend))
         elif key.endswith(".case"):
             objects.update(cfg, **{key: C.NameCase(value)})
         else:
@@ -346,6 +349,21 @@ def generate(source, recursive, params, route, cache, workdir):
     return files, written, exc
 
 
+def relocate_source(work):
+    """The same sources under another absolute path (a copy of the directory they live in)."""
+    import shutil
+
+    name = ENV.get("source_copy")
+    src = SPEC["source"]
+    if not name:
+        return src
+    srcdir = src if os.path.isdir(src) else os.path.dirname(src)
+    dest = os.path.join(work, name, os.path.basename(srcdir.rstrip("/")))
+    os.makedirs(os.path.dirname(dest), exist_ok=True)
+    shutil.copytree(srcdir, dest, ignore=shutil.ignore_patterns("__pycache__", "*.pyc"))
+    return dest if os.path.isdir(src) else os.path.join(dest, os.path.basename(src))
+
+
 def main():
     try:
         import xsdata.cli  # noqa: F401 - load everything before patching the clock into the modules
@@ -353,6 +371,7 @@ def main():
         pass
     patch_clock_everywhere()
     work = SPEC["workdir"]
+    SPEC["source"] = relocate_source(work)
     os.environ["TMPDIR"] = os.path.join(work, "tmp")
     os.makedirs(os.environ["TMPDIR"], exist_ok=True)
     import tempfile
